@@ -92,6 +92,26 @@ def run_case(rng, tier, case):
                 case.check('asset.periodic_cost_is_sum_of_joined_steps', ok, asset=a['name'], cls=a['type'], periodicity=a['periodicity'], bad=bad)
             except Exception as e:
                 case.event('periodic_probe_failed:' + type(e).__name__)
+    # a problem set up with a fixed time window is a problem like any other: its bounds are ordered, and the window's variables carry the given values
+    # (documented: they are fixed to them) - also when the values come from a problem with other bounds (re-planning after a capacity change)
+    if not split and r.ok and r.op is not None and len(r.op.c) and rng.random() < 0.2:
+        from ..canon import Snap
+        s_un = Snap(r.op)
+        T_ = r.built.timegrid.T
+        kq = int(rng.integers(1, T_ + 1))
+        xg = np.where(np.isfinite(s_un.u), s_un.u, 0.) + np.where(rng.random(len(s_un.u)) < 0.5, gen.pick(rng, [1., 0.5]), 0.)      # (partly beyond the present upper bounds)
+        rq = flow.run_portfolio(spec, built=r.built, do_optimize=False, fix_time_window={'I': np.arange(T_) < kq, 'x': xg.copy()})
+        if not rq.ok:
+            case.check('fixed_window.setup_works', False, error=flow.describe_error(rq))
+        else:
+            sq = Snap(rq.op)
+            mq = sq.mapping
+            inw = np.zeros(len(sq.c), bool)
+            if len(mq):
+                inw[np.unique(np.asarray(mq.index)[(mq['time_step'] < kq).values]).astype(int)] = True
+            case.check('fixed_window.l_le_u', bool(np.all(sq.l <= sq.u + 1e-12)), n_bad=int(np.sum(sq.l > sq.u + 1e-12)), steps_fixed=kq)
+            okp = bool(np.all(np.abs(sq.l[inw] - xg[inw]) <= 1e-9 * (1 + np.abs(xg[inw]))) and np.all(np.abs(sq.u[inw] - xg[inw]) <= 1e-9 * (1 + np.abs(xg[inw])))) if len(sq.c) == len(xg) else False
+            case.check('fixed_window.variables_carry_given_values', okp, nonvacuous=bool(inw.any()), steps_fixed=kq, n_window_vars=int(inw.sum()))
     nodal = 0
     for pev in rec.of('portfolio_setup'):
         if pev.snap is not None:
